@@ -119,11 +119,11 @@ type Facts struct {
 	must map[string]bool
 	may  map[string]bool
 	cnt  map[string]uint8
-	val  map[*ssa.Phi]int8 // tracked bools: 1 true, 2 false, 0/missing unknown
+	val  map[ssa.Value]int8 // tracked bools (phis of constants, results of absorbed helpers that return constants): 1 true, 2 false, 0/missing unknown
 }
 
 func newFacts() *Facts {
-	return &Facts{must: map[string]bool{}, may: map[string]bool{}, cnt: map[string]uint8{}, val: map[*ssa.Phi]int8{}}
+	return &Facts{must: map[string]bool{}, may: map[string]bool{}, cnt: map[string]uint8{}, val: map[ssa.Value]int8{}}
 }
 
 func (f *Facts) clone() *Facts {
@@ -235,7 +235,7 @@ func (f *Facts) key() string {
 	var ks []string
 	for p, v := range f.val {
 		if v != 0 {
-			ks = append(ks, fmt.Sprintf("%s=%d", p.Name(), v))
+			ks = append(ks, fmt.Sprintf("%s@%p=%d", p.Name(), p, v))
 		}
 	}
 	sort.Strings(ks)
@@ -347,7 +347,7 @@ func (s State) collapse() State {
 	if acc == nil {
 		return State{}
 	}
-	acc.val = map[*ssa.Phi]int8{}
+	acc.val = map[ssa.Value]int8{}
 	return State{"": acc}
 }
 
@@ -505,6 +505,11 @@ func (f *Flow) computeTracked() {
 						f.tracked[p] = false
 						changed = true
 					}
+				case *ssa.Call:
+					if !f.constBoolHelper(x) {
+						f.tracked[p] = false
+						changed = true
+					}
 				default:
 					f.tracked[p] = false
 					changed = true
@@ -538,6 +543,10 @@ func (f *Flow) boolVal(v ssa.Value, facts *Facts) int8 {
 		}
 	case *ssa.Phi:
 		if f.tracked[x] {
+			return facts.val[x]
+		}
+	case *ssa.Call:
+		if f.constBoolHelper(x) {
 			return facts.val[x]
 		}
 	case *ssa.UnOp:
@@ -675,7 +684,7 @@ func (f *Flow) edge(p *ssa.BasicBlock, si int, po State, b *ssa.BasicBlock) []*F
 		}
 		// phi assignment (simultaneous)
 		if predIdx >= 0 {
-			newVals := map[*ssa.Phi]int8{}
+			newVals := map[ssa.Value]int8{}
 			for _, in := range b.Instrs {
 				ph, ok := in.(*ssa.Phi)
 				if !ok {
@@ -1136,9 +1145,30 @@ func (f *Flow) absorb(call *ssa.Call, cur State, record bool) State {
 	}
 	f.stack[h] = true
 	g := &Flow{w: f.w, fn: h, cl: f.cl, sums: f.sums, stack: f.stack, depth: f.depth + 1, entry: cur}
+	// the helper's parameters stand for this call's arguments while it is analysed
+	if f.w.paramCtx == nil {
+		f.w.paramCtx = map[*ssa.Parameter]ssa.Value{}
+	}
+	saved := map[*ssa.Parameter]ssa.Value{}
+	for i, p := range h.Params {
+		if old, had := f.w.paramCtx[p]; had {
+			saved[p] = old
+		}
+		if i < len(call.Call.Args) {
+			f.w.paramCtx[p] = call.Call.Args[i]
+		}
+	}
 	g.run()
+	for _, p := range h.Params {
+		if old, had := saved[p]; had {
+			f.w.paramCtx[p] = old
+		} else {
+			delete(f.w.paramCtx, p)
+		}
+	}
 	delete(f.stack, h)
 	ex := &helperExit{all: State{}, ok: State{}, fail: State{}}
+	var valued []*Facts
 	nres := h.Signature.Results().Len()
 	for _, b := range h.Blocks {
 		if len(b.Instrs) == 0 {
@@ -1169,6 +1199,9 @@ func (f *Flow) absorb(call *ssa.Call, cur State, record bool) State {
 					kind = 2
 				}
 			}
+			if kind == 0 && f.w.allNonNilAt([]ssa.Value{last}, r) {
+				kind = 2 // returned on the non-nil edge of its own test
+			}
 		} else if b, isC := constBool(last); isC {
 			if b {
 				kind = 1
@@ -1176,12 +1209,47 @@ func (f *Flow) absorb(call *ssa.Call, cur State, record bool) State {
 				kind = 2
 			}
 		}
+		isBoolRes := false
+		if bt, okb := h.Signature.Results().At(nres - 1).Type().Underlying().(*types.Basic); okb && bt.Kind() == types.Bool && nres == 1 {
+			isBoolRes = true
+		}
+		if isBoolRes && kind == 0 {
+			// `return <condition>`: the verdict is that condition — split the
+			// return state on it, with the classifier's edge events applied, so
+			// the caller's test of the call behaves like a test of the condition
+			evT, evF := g.condEvents(last, true), g.condEvents(last, false)
+			for _, d := range st {
+				t := d.clone()
+				t.apply(evT)
+				t.val[call] = 1
+				ex.ok.add(t.clone())
+				valued = append(valued, t)
+				fcl := d.clone()
+				fcl.apply(evF)
+				fcl.val[call] = 2
+				ex.fail.add(fcl.clone())
+				valued = append(valued, fcl)
+			}
+			continue
+		}
 		for _, d := range st {
 			if kind != 2 {
 				ex.ok.add(d.clone())
 			}
 			if kind != 1 {
 				ex.fail.add(d.clone())
+			}
+		}
+		if !isErrorType(h.Signature.Results().At(nres-1).Type()) && nres == 1 && kind != 0 {
+			// a boolean verdict: remember it per disjunct, as for a flag
+			for _, d := range st {
+				c := d.clone()
+				c.val[call] = int8(kind)
+				valued = append(valued, c)
+			}
+		} else {
+			for _, d := range st {
+				valued = append(valued, d.clone())
 			}
 		}
 	}
@@ -1205,6 +1273,13 @@ func (f *Flow) absorb(call *ssa.Call, cur State, record bool) State {
 	}
 	if len(ex.all) == 0 {
 		return nil
+	}
+	if f.constBoolHelper(call) {
+		out := State{}
+		for _, d := range valued {
+			out.add(d)
+		}
+		return out
 	}
 	out := ex.all.clone()
 	if len(out) > 48 {
@@ -1281,4 +1356,61 @@ func (f *Flow) absorbedEdgeState(p *ssa.BasicBlock, ifi *ssa.If, branch bool) St
 		return State{}
 	}
 	return st.clone()
+}
+
+// constBoolHelper: a plain call of an absorbed helper with a single boolean
+// result — its verdict is tracked per disjunct like a flag (absorb() values
+// each return state with what that return yields).
+func (f *Flow) constBoolHelper(c *ssa.Call) bool {
+	if c.Call.IsInvoke() {
+		return false
+	}
+	h := c.Call.StaticCallee()
+	if h == nil || !f.w.absorbable(h) {
+		return false
+	}
+	res := h.Signature.Results()
+	if res.Len() != 1 {
+		return false
+	}
+	if bt, ok := res.At(0).Type().Underlying().(*types.Basic); !ok || bt.Kind() != types.Bool {
+		return false
+	}
+	return true
+}
+
+// condEvents: the classifier's events for a boolean value being true/false (as
+// edgeEvent derives them for an If on that value).
+func (f *Flow) condEvents(cond ssa.Value, taken bool) *Event {
+	neg := false
+	for {
+		if u, ok := cond.(*ssa.UnOp); ok && u.Op == token.NOT {
+			cond, neg = u.X, !neg
+			continue
+		}
+		break
+	}
+	if neg {
+		taken = !taken
+	}
+	switch x := cond.(type) {
+	case *ssa.BinOp:
+		if f.cl.Cond != nil {
+			return f.cl.Cond(normCond(x), taken)
+		}
+	default:
+		var e1, e2 *Event
+		if call := callOrigin(cond); call != nil && f.cl.CallEdge != nil {
+			if taken {
+				e1 = f.cl.CallEdge(call, "true")
+			} else {
+				e1 = f.cl.CallEdge(call, "false")
+			}
+		}
+		if f.cl.Cond != nil {
+			e2 = f.cl.Cond(Cond{Op: "truth", X: cond, Raw: cond}, taken)
+		}
+		return mergeEvents(e1, e2)
+	}
+	return nil
 }
